@@ -50,13 +50,13 @@ PROP = dict(
                   "ESM execution is modelled by writing the ESMStatus record + price snapshots the ESM end-blocker would write",
                   "price feeds are env inputs (Twa records written directly)"],
         assumptions=["breaker scope as in DESIGN.md: locker withdraw/close and lend repay/close are outside the listed scope (recorded in Model/GuardsCheck.v)",
-                     "liquidation.MsgLiquidateBorrow and auction.MsgPlaceDutchLendBid are excluded from the price theorem (price errors assigned to _ on their paths; not reproduced dynamically); auctionsV2.MsgPlaceMarketBid is excluded as known finding C14-F1 (reproduced)",
+                     "liquidation.MsgLiquidateBorrow and auction.MsgPlaceDutchLendBid are excluded from the price theorem (price errors assigned to _ on their paths; not reproduced dynamically)",
                      "'needed price' is observed, not derived: a feed the all-active run of the same message reads (SDK store trace) and whose value changes that run's outcome when scaled x1000 or /1000"],
     )
 
 MANIFEST = dict(
     level_text="Finite-matrix proof over tables REGENERATED from the Go source on every run: every handler in the breaker scope has the breaker check before any write, every vault handler that can reach MintCoins has the ESM check before any write, vault withdraw has the cool-off check before any write, all seven sweep / auction-start functions are gated by the breaker and write nothing before reading it, every price call site reachable from a handler (and every link to it; a raw GetTwa read that discards the found flag counts as a site that ignores the error) propagates the error - each lifted by a generic lemma to 'for every store the handler returns the error on the untouched store'. Cross-checked by running every handler x breaker x ESM phase x every inactive-price subset, and every amount field x every boundary amount of the state (the amounts that select early-return branches) x controls, and the sweeps on the real code; exact error class compared with the model's prediction; an operation must fail when a feed it reads and depends on is inactive, and an inactive feed never turns a refusal into a success.",
     design_ref="DESIGN.md section 4 C14",
-    level_note="Trusted: Coq kernel, translator (fails closed on unrecognised shapes), extraction, OCaml runner, Go harness. Price clause is _partial: three handlers excluded (price error ignored on their paths: two read in the code, not reproduced; auctionsV2.MsgPlaceMarketBid reproduced = known finding C14-F1). No axioms.",
+    level_note="Trusted: Coq kernel, translator (fails closed on unrecognised shapes), extraction, OCaml runner, Go harness. Price clause is _partial: two handlers excluded (price error ignored on their paths, read in the code, not reproduced). No axioms.",
     technique="Coq proof by computation over regenerated tables + generic guard-list lemmas + control matrix run against the real msg servers and block hooks",
 )
